@@ -221,7 +221,8 @@ def run_frames(res, spec):
     inst = impl.mk_instance(spec)
     tmp = tempfile.mkdtemp(prefix="jslmc-c20-")
     try:
-        for n_h, hist in enumerate(ref.all_histories()):
+        all_hists = list(ref.all_histories())
+        for n_h, hist in enumerate(all_hists):
             res.add("evaluations")
             res.add("traces")
             if len(hist) >= 2 and len({j for j, _ in hist}) >= 2:
@@ -263,6 +264,21 @@ def run_frames(res, spec):
                     res.violation(check, "frames-differ", sig={"via": "GanttChartCreator.create_gif"}, spec=spec, history=hist, observed=[s[0] for s in seen2], expected=want)
                 if loaded != list(range(1, len(hist) + 1)):
                     res.violation(check, "frames-loaded-out-of-order", sig={"via": "GanttChartCreator.create_gif"}, spec=spec, history=hist, loaded=loaded)
+                # a second episode on the same dispatcher/creator: the animation
+                # must show the history recorded since the reset
+                d.reset()
+                hist2 = all_hists[-1 - n_h]
+                impl.replay(d, hist2)
+                seen3, loaded3 = [], []
+                creator.partial_gantt_chart_plotter = recording_plot(seen3)
+                imageio.imread = lambda path, *a, **k: int(open(path).read())
+                imageio.mimsave = lambda path, images, *a, **k: loaded3.extend(images)
+                try:
+                    creator.create_gif()
+                finally:
+                    imageio.imread, imageio.mimsave = saved
+                if [s[0] for s in seen3] != expected_frames(ref, hist2) or loaded3 != list(range(1, len(hist2) + 1)):
+                    res.violation(check, "frames-differ-in-second-episode", sig={"via": "GanttChartCreator.create_gif"}, spec=spec, first_episode=hist, second_episode=hist2, observed=[s[0] for s in seen3], expected=expected_frames(ref, hist2))
     finally:
         shutil.rmtree(tmp, ignore_errors=True)
     res.add("states")
